@@ -96,7 +96,7 @@ def regenerate_all():
             fn()
         except Exception as e:  # noqa: BLE001
             errors[name] = f"{type(e).__name__}: {e}"
-    for mod, name in (("translate_seed", "seed"), ("api_surface", "api"), ("translate_uid", "uid"), ("translate_filter", "filter"), ("translate_subfaces", "subfaces"), ("translate_stats", "stats"), ("translate_gens", "gens"), ("translate_mutators", "mutators")):
+    for mod, name in (("translate_seed", "seed"), ("api_surface", "api"), ("translate_uid", "uid"), ("translate_filter", "filter"), ("translate_subfaces", "subfaces"), ("translate_stats", "stats"), ("translate_gens", "gens"), ("translate_mutators", "mutators"), ("translate_dimutators", "dimutators"), ("translate_scmutators", "scmutators")):
         try:
             m = __import__(f"harness.{mod}", fromlist=["x"])
         except ImportError:
